@@ -23,6 +23,9 @@ from . import c14
 # ------------------------------------------------------------------ deterministic scheduler
 
 
+STEP_TIMEOUT = 15  # seconds for one statement (normally milliseconds); only used to turn a deadlock into a reported outcome
+
+
 class Sched:
     def __init__(self):
         self.tl = threading.local()
@@ -62,7 +65,12 @@ class Sched:
         if w["done"]:
             return False
         w["go"].release()
-        self.ctl.acquire()
+        if not self.ctl.acquire(timeout=STEP_TIMEOUT):
+            # the thread neither reached its next yield point nor finished: it is blocked on something another parser holds
+            w["done"] = True
+            w["blocked"] = True
+            w["res"] = ("exc", "Blocked", "thread did not reach its next statement within %ds (blocked by another parser object)" % STEP_TIMEOUT, [])
+            return False
         return True
 
 
@@ -143,7 +151,7 @@ def obj(draw):
         # the corpus scripts with a Hive RegexSerDe "input.regex" property: their value travels through parser-object state
         src = {"t": "corpus", "item": draw(st.sampled_from(REGEX_ITEMS))}
     elif k < 7:
-        blocks = draw(universe.script(1, 3, kinds=["tables", "ctable", "alter", "seq", "decl", "dtable", "xtable", "drop"], unsupported_p=3, families=("rejected",)))
+        blocks = draw(universe.script(1, 3, kinds=["tables", "ctable", "alter", "seq", "decl", "dtable", "xtable", "drop", "like", "typed"], unsupported_p=3, families=("rejected",)))
         src = {"t": "gen", "blocks": blocks, "layout": None, "ops": [], "unterminated": False, "trailing_set": False}
     else:
         src = {"t": "corpus", "item": draw(st.integers(0, len(universe.corpus()) - 1))}
@@ -223,15 +231,18 @@ class C15(Prop):
                 self.objs += [a, b]
                 self.order += [0, 1]  # first occurrence of an index = construction
 
-            @precondition(lambda self: len(self.objs) < 4 and not self.broken)
+            @precondition(lambda self: len(self.objs) < 4)
             @rule(o=obj())
             def construct(self, o):
+                if self.broken:
+                    return
                 self.objs.append(o)
                 self.order.append(len(self.objs) - 1)
 
-            @precondition(lambda self: not self.broken)
             @rule(i=st.integers(0, 3))
             def run(self, i):
+                if self.broken:  # a violating history was already handed to the collector
+                    return
                 self.order.append(i % len(self.objs))
                 case = {"kind": "ops", "objs": list(self.objs), "order": list(self.order)}
                 out = prop.evaluate(case)
@@ -272,6 +283,10 @@ class C15(Prop):
 
     def evaluate(self, case):
         out = Outcome()
+        if _S.get("poisoned"):
+            # a deadlock was reported in this worker process: whatever is held stays held, every further parse here would block
+            out.excluded = "worker-blocked-by-an-earlier-deadlock"
+            return out
         objs = case["objs"]
         texts = [c14.source_text(o["src"]) for o in objs]
         refs = [isolated.reference(t, o["ctor"], o["run"]) for t, o in zip(texts, objs)]
@@ -310,6 +325,8 @@ class C15(Prop):
         out.parses += len(jobs)
         out.nontrivial = len(flags) >= 2 and max(switches) >= 2
         out.label("switches=%s" % min(max(switches), 6))
+        if any(g is not None and g[0] == "exc" and g[1] == "Blocked" for g in results):
+            _S["poisoned"] = True  # the lock / resource stays taken in this process: later schedules would only repeat the finding
         for i, (got, ref) in enumerate(zip(results, refs)):
             if got is None:
                 out.fail("thread-did-not-finish", "object %d" % i)
